@@ -1098,7 +1098,7 @@ func init() {
 // ---------------------------------------------------------------------------------------------------------------
 func ruleConversionsOverwriteTheirTarget(c *core.Ctx) {
 	const rule = "GR2"
-	c.Rule(rule, "cpp/binary: every emission of a conversion function that writes through its target parameter either assigns / resizes / indexes it, or — if it accumulates (push_back, emplace_back, insert, append, +=, |=) — follows an emission that empties the target", 8)
+	c.Rule(rule, "cpp/binary: every emission of a conversion function that writes through its target parameter either assigns / resizes / indexes it, or — if it accumulates (push_back, emplace_back, insert, append, +=, |=) — follows an emission that empties the target", 3)
 	accRe := regexp.MustCompile(`^\s*%(\[1\])?s(\.push_back\(|\.emplace_back\(|\.emplace\(|\.insert\(|\.append\(|\s*\+=|\s*\|=)`)
 	writeRe := regexp.MustCompile(`^\s*%(\[1\])?s(\s*=[^=]|\[[^\]]*\]\s*=[^=]|\.resize\(|\.clear\(|\.assign\(|\.reserve\()`)
 	emptyRe := regexp.MustCompile(`^\s*%(\[1\])?s(\s*=[^=]|\.clear\(\)|\.resize\(0\))`)
